@@ -820,7 +820,11 @@ class CellsImpl(*_cells_impl_base):
             self.input_keys.add(key)
             if self.system._recalc_dependents:
                 for trg in targets:
-                    trg[OBJ].get_value_from_key(trg[KEY])
+                    obj = trg[OBJ]
+                    if obj.interface._impl is not obj:
+                        # Discarded together with its ItemSpace
+                        continue
+                    obj.get_value_from_key(trg[KEY])
 
     def _store_value(self, key, value):
 
